@@ -141,7 +141,7 @@ def forwards(ctx, prog, cfg, name, tgt, nargs, msg, also=()):
 
 
 def _none_edges(f, b):
-    """edges (pred, label) entering block b, looking through empty goto blocks"""
+    """edges (pred, label) entering block b, looking through goto blocks (each incoming path is judged on its own facts)"""
     out = []
     preds = f.preds(False)
     seen = set()
@@ -153,7 +153,9 @@ def _none_edges(f, b):
                 if s != x or kind != "normal":
                     continue
                 t = f.term(p)
-                if t["k"] == "goto" and not [q for q in f.blocks[p]["stmts"] if q["k"] == "assign"] and p not in seen:
+                # a goto block is looked through whatever it assigns: facts are stated over SSA versions (locals and memory
+                # alike), so what holds on an edge further up still holds — per incoming path — when the answer is built
+                if t["k"] == "goto" and p not in seen and p != 0:
                     seen.add(p)
                     st.append(p)
                 else:
